@@ -642,6 +642,14 @@ func runC17(r *Run) {
 					case token.GTR, token.NEQ, token.GEQ:
 						cut[edge{br.If.Block(), br.slotWhenRel(false)}] = true
 					}
+				} else if ok && n == 1 {
+					// the same boundary written against 1: `< 1` is `<= 0`, `>= 1` is `> 0`
+					switch br.Info.Op {
+					case token.LSS:
+						cut[edge{br.If.Block(), br.slotWhenRel(true)}] = true
+					case token.GEQ:
+						cut[edge{br.If.Block(), br.slotWhenRel(false)}] = true
+					}
 				}
 			}
 		}
